@@ -209,3 +209,80 @@ Proof. vm_compute. reflexivity. Qed.
 Example yield_sweep_tb4_repaired :
   forallb (fun w => yield_ok tb4 w true true true) (all_toks [TOpd 1; TOp MINUS] 8) = true.
 Proof. vm_compute. reflexivity. Qed.
+
+(* ------------------------------------------------------------------ *)
+(* The yield invariant (C02_yield) for the repaired loop.              *)
+(* Stacks are read back top-down, so that pushes are computation steps. *)
+(* ------------------------------------------------------------------ *)
+
+Fixpoint rbB (opds : list tree) (ops : list opentry) : list tok :=
+  match ops with
+  | [] => []
+  | (_, a, o) :: ops' =>
+      if Nat.eqb a 0 then rbB opds ops' ++ [TOp o]
+      else match opds with
+           | l :: opds' => rbB opds' ops' ++ yield l ++ [TOp o]
+           | [] => []
+           end
+  end.
+Definition rbA (opds : list tree) (ops : list opentry) : list tok :=
+  match opds with t :: opds' => rbB opds' ops ++ yield t | [] => [] end.
+
+Definition is_inf (e : opentry) := negb (Nat.eqb (snd (fst e)) 0).
+Definition n_infix (ops : list opentry) := length (filter is_inf ops).
+Definition balA (opds : list tree) (ops : list opentry) := length opds = S (n_infix ops).
+
+Lemma pop_rbA s :
+  balA (opds s) (ops s) -> ops s <> [] ->
+  rbA (opds (pop_operator s)) (ops (pop_operator s)) = rbA (opds s) (ops s)
+  /\ balA (opds (pop_operator s)) (ops (pop_operator s))
+  /\ length (ops (pop_operator s)) < length (ops s)
+  /\ marker (pop_operator s) = marker s /\ outer (pop_operator s) = outer s /\ pos (pop_operator s) = pos s.
+Proof.
+  destruct s as [od op mk ou p]. cbn [opds ops marker outer pos]. intros Hb Hne.
+  destruct op as [|[[pr a] o] op']; [congruence|]. clear Hne.
+  unfold balA, n_infix in Hb. cbn [filter] in Hb. unfold is_inf at 1 in Hb. cbn [fst snd] in Hb.
+  unfold pop_operator. cbn [opds ops marker outer pos].
+  destruct od as [|r od']; [cbn in Hb; destruct (negb (a =? 0)); discriminate|].
+  destruct (Nat.eqb a 0) eqn:Ea.
+  - cbn [negb] in Hb. cbn [opds ops marker outer pos]. repeat split; auto.
+    cbn [rbA rbB yield]. rewrite Ea. rewrite <- app_assoc. reflexivity.
+  - cbn [negb length] in Hb. destruct od' as [|l od'']; [cbn in Hb; lia|].
+    cbn [opds ops marker outer pos]. repeat split; auto.
+    + cbn [rbA rbB yield]. rewrite Ea. rewrite <- !app_assoc. reflexivity.
+    + unfold balA, n_infix. cbn [length] in *. lia.
+Qed.
+
+Lemma pop_while_rbA : forall k cond s,
+  balA (opds s) (ops s) ->
+  rbA (opds (pop_while k cond s)) (ops (pop_while k cond s)) = rbA (opds s) (ops s)
+  /\ balA (opds (pop_while k cond s)) (ops (pop_while k cond s))
+  /\ marker (pop_while k cond s) = marker s /\ outer (pop_while k cond s) = outer s
+  /\ pos (pop_while k cond s) = pos s.
+Proof.
+  induction k as [|k IH]; intros cond s Hb; cbn [pop_while]; [auto|].
+  destruct (ops s) as [|e op'] eqn:Eo; [rewrite Eo; auto|].
+  rewrite <- Eo in *. destruct (cond e); [|auto].
+  destruct (pop_rbA s Hb) as (H1 & H2 & _ & H4 & H5 & H6); [congruence|].
+  destruct (IH cond (pop_operator s) H2) as (J1 & J2 & J4 & J5 & J6).
+  repeat split; congruence.
+Qed.
+
+Lemma pop_all_single : forall k s,
+  balA (opds s) (ops s) -> length (ops s) <= k ->
+  exists t, opds (pop_while k (fun _ => true) s) = [t] /\ ops (pop_while k (fun _ => true) s) = []
+            /\ yield t = rbA (opds s) (ops s).
+Proof.
+  assert (Hnil : forall s, balA (opds s) (ops s) -> ops s = [] ->
+                 exists t, opds s = [t] /\ ops s = [] /\ yield t = rbA (opds s) (ops s)).
+  { intros s Hb Eo. unfold balA, n_infix in Hb. rewrite Eo in *. cbn in Hb.
+    destruct (opds s) as [|t [|]] eqn:Ed; cbn in Hb; try lia. exists t. cbn. auto. }
+  induction k as [|k IH]; intros s Hb Hk.
+  - cbn [pop_while]. apply Hnil; auto. destruct (ops s); auto. cbn in Hk. lia.
+  - cbn [pop_while]. destruct (ops s) as [|e op'] eqn:Eo.
+    + rewrite <- Eo in *. apply Hnil; auto.
+    + rewrite <- Eo in *.
+      destruct (pop_rbA s Hb) as (H1 & H2 & H3 & _); [congruence|].
+      destruct (IH (pop_operator s) H2) as (t & T1 & T2 & T3); [rewrite Eo in *; cbn in *; lia|].
+      exists t. repeat split; auto. congruence.
+Qed.
